@@ -280,4 +280,173 @@ theorem derive_session_event_eq (env : TW.Env) (img : List Nat) (tbl : Option Ta
       · exact derive_discover_scan env img tbl our hb hl hour horacle hwf hd.2 (by omega) hz
   · exact derive_other_eq env img tbl our hd
 
+/-! ## Bytes behind the announced length do not matter (the over-read clause of C01 for this function, as non-interference) -/
+
+theorem rd_app (img t : List Nat) (off n : Nat) (h : off + n ≤ img.length) : rd (img ++ t) off n = rd img off n := by
+  unfold rd
+  rw [List.drop_append_of_le_length (by omega), List.take_append_of_le_length (by rw [List.length_drop]; omega)]
+
+theorem take6_drop_app (img t : List Nat) (off : Nat) (h : off + 6 ≤ img.length) :
+    List.take 6 (List.drop off (img ++ t)) = List.take 6 (List.drop off img) := rd_app img t off 6 h
+
+theorem stationScan_app (img t our : List Nat) (n a : Nat) (h : 36 + (a + n) * 6 ≤ img.length) :
+    stationScan (img ++ t) 36 6 our n a = stationScan img 36 6 our n a := by
+  induction n generalizing a with
+  | zero => rfl
+  | succ n ih =>
+    have hs : slice (img ++ t) (36 + a * 6) 6 = slice img (36 + a * 6) 6 := rd_app img t _ 6 (by omega)
+    simp only [stationScan, hs]
+    split
+    · rfl
+    · exact ih (a + 1) (by omega)
+
+theorem derive_tail_other (env : TW.Env) (img t : List Nat) (tbl : Option Table) (our : Mac)
+    (hnd : ¬ (32 ≤ img.length ∧ fOpcode img = X.opDiscover)) :
+    (TW.derive_session_event env (img ++ t) img.length [] our).ret = deriveCode img tbl (some our) := by
+  by_cases hlen : img.length < 32
+  · simp [TW.derive_session_event, deriveCode, hlen]
+  · have h32 : 32 ≤ img.length := by omega
+    have hop : unle (rd (img ++ t) (0 + 17) 1) = fOpcode img := by
+      rw [Nat.zero_add, rd_app img t 17 1 (by omega), unle_rd1 img 17 (by omega)]; simp [fOpcode]
+    have hne : fOpcode img ≠ 0 := fun h => hnd ⟨h32, by simpa using h⟩
+    have hd18 : 6 ≤ (List.drop 18 (img ++ t)).length := by rw [List.length_drop, List.length_append]; omega
+    have hm := mac_equal_eq env (List.drop 18 (img ++ t)) [255, 255, 255, 255, 255, 255] hd18 (by decide)
+    have hsl : List.take 6 (List.drop 18 (img ++ t)) = fRealDst img := by
+      rw [take6_drop_app img t 18 (by omega)]; simp [fRealDst, slice]
+    have htb : List.take 6 [255, 255, 255, 255, 255, 255] = bcast := by decide
+    rw [hsl, htb] at hm
+    by_cases h8 : fOpcode img = 8
+    · by_cases hbc : (fRealDst img == bcast) = true
+      · simp [TW.derive_session_event, deriveCode, hlen, hop, h8, hm, hbc]
+      · simp [TW.derive_session_event, deriveCode, hlen, hop, h8, hm, hbc]
+    · by_cases h1 : fOpcode img = 1
+      · simp [TW.derive_session_event, deriveCode, hlen, hop, h1]
+      · have h8i : ¬ ((fOpcode img : Int) = 8) := by omega
+        have h1i : ¬ ((fOpcode img : Int) = 1) := by omega
+        have h0i : ¬ ((fOpcode img : Int) = 0) := by omega
+        simp [TW.derive_session_event, deriveCode, hlen, hop, h1, h8, hne, h8i, h1i, h0i]
+
+theorem derive_tail_discover_short (env : TW.Env) (img t : List Nat) (tbl : Option Table) (our : Mac)
+    (h32 : 32 ≤ img.length) (h0 : fOpcode img = X.opDiscover) (h36 : img.length < 36) :
+    (TW.derive_session_event env (img ++ t) img.length [] our).ret = deriveCode img tbl (some our) := by
+  have hlen : ¬ img.length < 32 := by omega
+  have hop : unle (rd (img ++ t) (0 + 17) 1) = fOpcode img := by
+    rw [Nat.zero_add, rd_app img t 17 1 (by omega), unle_rd1 img 17 (by omega)]; simp [fOpcode]
+  have h0' : fOpcode img = 0 := by simpa using h0
+  simp [TW.derive_session_event, deriveCode, hlen, hop, h0', h36]
+
+theorem derive_tail_discover_zero (env : TW.Env) (img t : List Nat) (tbl : Option Table) (our : Mac)
+    (hb : isBytes img) (hl : img.length < 18446744073709551616) (hour : our.length = 6)
+    (horacle : env.session_table_find = findOracle tbl) (hwf : TableWf tbl)
+    (h0 : fOpcode img = X.opDiscover) (h36 : 36 ≤ img.length) (hz : unbe (slice img 34 2) = 0) :
+    (TW.derive_session_event env (img ++ t) img.length [] our).ret = deriveCode img tbl (some our) := by
+  have hlen : ¬ img.length < 32 := by omega
+  have hlen36 : ¬ img.length < 36 := by omega
+  have hop : unle (rd (img ++ t) (0 + 17) 1) = fOpcode img := by
+    rw [Nat.zero_add, rd_app img t 17 1 (by omega), unle_rd1 img 17 (by omega)]; simp [fOpcode]
+  have h0' : fOpcode img = 0 := by simpa using h0
+  have hgen : (TW.lltd_ntohs env (unle (rd (img ++ t) 32 2))).ret = fDiscGen img := by
+    rw [rd_app img t 32 2 (by omega), ntohs_rd env img 32 hb (by omega)]; simp [fDiscGen]
+  have hxid : (TW.lltd_ntohs env (unle (rd (img ++ t) 30 2))).ret = fSeq img := by
+    rw [rd_app img t 30 2 (by omega), ntohs_rd env img 30 hb (by omega)]; simp [fSeq]
+  have hcnt : (TW.lltd_ntohs env (unle (rd (img ++ t) 34 2))).ret = 0 := by rw [rd_app img t 34 2 (by omega), ntohs_rd env img 34 hb (by omega)]; exact hz
+  have hsrc : List.take 6 (List.drop 24 (img ++ t)) = fRealSrc img := by rw [take6_drop_app img t 24 (by omega)]; simp [fRealSrc, slice]
+  cases hex : existingOf tbl (fRealSrc img) (fDiscGen img) with
+  | none =>
+    simp [TW.derive_session_event, deriveCode, discoverEvent, ackScan, hlen, hlen36, hop, h0', hgen, hxid, hcnt, hz, hsrc, horacle, findOracle, hex]
+  | some e =>
+    obtain ⟨hm, h6, hs⟩ := existing_facts tbl _ _ e hwf hex
+    obtain ⟨hr1, hr2'⟩ := entry_reads env img e (by omega) hm h6 hs
+    have hr2 : (TW.mac_equal env (entryBytes e) (List.drop 24 (img ++ t))).ret = true := by
+        have hd : 6 ≤ (List.drop 24 (img ++ t)).length := by rw [List.length_drop, List.length_append]; omega
+        rw [mac_equal_eq env (entryBytes e) _ (by simp [entryBytes, h6]) hd, hsrc]
+        have h1 : List.take 6 (entryBytes e) = e.mac := by simp [entryBytes, List.take_append, h6]
+        rw [h1, hm]; simp
+    by_cases hq : e.seq = fSeq img
+    · simp [TW.derive_session_event, deriveCode, discoverEvent, ackScan, hlen, hlen36, hop, h0', hgen, hxid, hcnt, hz, hsrc, horacle, findOracle, hex,
+        hr1, hr2, hq, int_bne]
+    · simp [TW.derive_session_event, deriveCode, discoverEvent, ackScan, hlen, hlen36, hop, h0', hgen, hxid, hcnt, hz, hsrc, horacle, findOracle, hex,
+        hr1, hr2, hq, int_bne]
+
+theorem derive_tail_discover_scan (env : TW.Env) (img t : List Nat) (tbl : Option Table) (our : Mac)
+    (hb : isBytes img) (hl : img.length < 18446744073709551616) (hour : our.length = 6)
+    (horacle : env.session_table_find = findOracle tbl) (hwf : TableWf tbl)
+    (h0 : fOpcode img = X.opDiscover) (h36 : 36 ≤ img.length) (hz : unbe (slice img 34 2) ≠ 0) :
+    (TW.derive_session_event env (img ++ t) img.length [] our).ret = deriveCode img tbl (some our) := by
+  have hlen : ¬ img.length < 32 := by omega
+  have hlen36 : ¬ img.length < 36 := by omega
+  have hop : unle (rd (img ++ t) (0 + 17) 1) = fOpcode img := by
+    rw [Nat.zero_add, rd_app img t 17 1 (by omega), unle_rd1 img 17 (by omega)]; simp [fOpcode]
+  have h0' : fOpcode img = 0 := by simpa using h0
+  have hgen : (TW.lltd_ntohs env (unle (rd (img ++ t) 32 2))).ret = fDiscGen img := by
+    rw [rd_app img t 32 2 (by omega), ntohs_rd env img 32 hb (by omega)]; simp [fDiscGen]
+  have hxid : (TW.lltd_ntohs env (unle (rd (img ++ t) 30 2))).ret = fSeq img := by
+    rw [rd_app img t 30 2 (by omega), ntohs_rd env img 30 hb (by omega)]; simp [fSeq]
+  have hcnt : (TW.lltd_ntohs env (unle (rd (img ++ t) 34 2))).ret = unbe (slice img 34 2) := by
+    rw [rd_app img t 34 2 (by omega)]; exact ntohs_rd env img 34 hb (by omega)
+  have hdlt : unbe (slice img 34 2) < 65536 := unbe_slice_two_lt img 34 hb
+  have hmax : (img.length + 18446744073709551580) % 18446744073709551616 = img.length - 36 := by omega
+  have hsrc : List.take 6 (List.drop 24 (img ++ t)) = fRealSrc img := by rw [take6_drop_app img t 24 (by omega)]; simp [fRealSrc, slice]
+  have hzi : ¬ ((unbe (slice img 34 2) : Int) = 0) := by omega
+  by_cases hgt : unbe (slice img 34 2) > (img.length - 36) / 6
+  · have hmod : (img.length - 36) / 6 % 65536 = (img.length - 36) / 6 := by omega
+    have hfit : 36 + (img.length - 36) / 6 * 6 ≤ img.length + t.length := by omega
+    have hsa := stationScan_app img t our ((img.length - 36) / 6) 0 (by omega)
+    cases hex : existingOf tbl (fRealSrc img) (fDiscGen img) with
+    | none =>
+      by_cases hsc : (stationScan img 36 6 our ((img.length - 36) / 6) 0).1 = true
+      · simp [TW.derive_session_event, deriveCode, discoverEvent, ackScan, stationCount, hlen, hlen36, hop, h0', hgen, hxid, hcnt, hz, hzi, hsrc, horacle,
+          findOracle, hex, hmax, hgt, hmod, hfit, hour, loop_scan0, hsa, hsc]
+      · simp [TW.derive_session_event, deriveCode, discoverEvent, ackScan, stationCount, hlen, hlen36, hop, h0', hgen, hxid, hcnt, hz, hzi, hsrc, horacle,
+          findOracle, hex, hmax, hgt, hmod, hfit, hour, loop_scan0, hsa, hsc]
+    | some e =>
+      obtain ⟨hm, h6, hs⟩ := existing_facts tbl _ _ e hwf hex
+      obtain ⟨hr1, hr2'⟩ := entry_reads env img e (by omega) hm h6 hs
+      have hr2 : (TW.mac_equal env (entryBytes e) (List.drop 24 (img ++ t))).ret = true := by
+        have hd : 6 ≤ (List.drop 24 (img ++ t)).length := by rw [List.length_drop, List.length_append]; omega
+        rw [mac_equal_eq env (entryBytes e) _ (by simp [entryBytes, h6]) hd, hsrc]
+        have h1 : List.take 6 (entryBytes e) = e.mac := by simp [entryBytes, List.take_append, h6]
+        rw [h1, hm]; simp
+      by_cases hsc : (stationScan img 36 6 our ((img.length - 36) / 6) 0).1 = true <;> by_cases hq : e.seq = fSeq img
+      all_goals simp [TW.derive_session_event, deriveCode, discoverEvent, ackScan, stationCount, hlen, hlen36, hop, h0', hgen, hxid, hcnt, hz, hzi, hsrc, horacle,
+          findOracle, hex, hmax, hgt, hmod, hfit, hour, loop_scan0, hsa, hsc, hr1, hr2, hq, int_bne]
+  · have hfit : 36 + unbe (slice img 34 2) * 6 ≤ img.length + t.length := by omega
+    have hsa := stationScan_app img t our (unbe (slice img 34 2)) 0 (by omega)
+    have hmod : True := trivial
+    cases hex : existingOf tbl (fRealSrc img) (fDiscGen img) with
+    | none =>
+      by_cases hsc : (stationScan img 36 6 our (unbe (slice img 34 2)) 0).1 = true
+      all_goals simp [TW.derive_session_event, deriveCode, discoverEvent, ackScan, stationCount, hlen, hlen36, hop, h0', hgen, hxid, hcnt, hz, hzi, hsrc, horacle,
+          findOracle, hex, hmax, hgt, hmod, hfit, hour, loop_scan0, hsa, hsc]
+    | some e =>
+      obtain ⟨hm, h6, hs⟩ := existing_facts tbl _ _ e hwf hex
+      obtain ⟨hr1, hr2'⟩ := entry_reads env img e (by omega) hm h6 hs
+      have hr2 : (TW.mac_equal env (entryBytes e) (List.drop 24 (img ++ t))).ret = true := by
+        have hd : 6 ≤ (List.drop 24 (img ++ t)).length := by rw [List.length_drop, List.length_append]; omega
+        rw [mac_equal_eq env (entryBytes e) _ (by simp [entryBytes, h6]) hd, hsrc]
+        have h1 : List.take 6 (entryBytes e) = e.mac := by simp [entryBytes, List.take_append, h6]
+        rw [h1, hm]; simp
+      by_cases hsc : (stationScan img 36 6 our (unbe (slice img 34 2)) 0).1 = true <;> by_cases hq : e.seq = fSeq img
+      all_goals simp [TW.derive_session_event, deriveCode, discoverEvent, ackScan, stationCount, hlen, hlen36, hop, h0', hgen, hxid, hcnt, hz, hzi, hsrc, horacle,
+          findOracle, hex, hmax, hgt, hmod, hfit, hour, loop_scan0, hsa, hsc, hr1, hr2, hq, int_bne]
+
+theorem derive_tail_eq (env : TW.Env) (img t : List Nat) (tbl : Option Table) (our : Mac)
+    (hb : isBytes img) (hl : img.length < 18446744073709551616) (hour : our.length = 6)
+    (horacle : env.session_table_find = findOracle tbl) (hwf : TableWf tbl) :
+    (TW.derive_session_event env (img ++ t) img.length [] our).ret = deriveCode img tbl (some our) := by
+  by_cases hd : 32 ≤ img.length ∧ fOpcode img = X.opDiscover
+  · by_cases h36 : img.length < 36
+    · exact derive_tail_discover_short env img t tbl our hd.1 hd.2 h36
+    · by_cases hz : unbe (slice img 34 2) = 0
+      · exact derive_tail_discover_zero env img t tbl our hb hl hour horacle hwf hd.2 (by omega) hz
+      · exact derive_tail_discover_scan env img t tbl our hb hl hour horacle hwf hd.2 (by omega) hz
+  · exact derive_tail_other env img t tbl our hd
+
+/-- **non-interference**: the frame bytes behind the length the callee was told have no influence on the event returned -/
+theorem derive_tail_independent (env : TW.Env) (img t t' : List Nat) (tbl : Option Table) (our : Mac)
+    (hb : isBytes img) (hl : img.length < 18446744073709551616) (hour : our.length = 6)
+    (horacle : env.session_table_find = findOracle tbl) (hwf : TableWf tbl) :
+    (TW.derive_session_event env (img ++ t) img.length [] our).ret = (TW.derive_session_event env (img ++ t') img.length [] our).ret := by
+  rw [derive_tail_eq env img t tbl our hb hl hour horacle hwf, derive_tail_eq env img t' tbl our hb hl hour horacle hwf]
+
 end LLTD.TEvEq
